@@ -581,6 +581,26 @@ Proof.
     + eapply IH; eassumption.
 Qed.
 
+(** With statement caching on, a Close of a NAMED statement never goes to the server: whatever name the sender puts
+    in it (its own, another client's, the pooler's PGCAT_n), the statements a backend session holds are not the
+    sender's to close.  A batch made of such Closes only is answered by the pooler (nothing is forwarded). *)
+Definition named_close (x : xitem) : bool :=
+  match x with XClose k (_ :: _) => (k =? 83)%N | _ => false end.
+
+Lemma sync_walk_named_closes : forall xs fwd q, forallb named_close xs = true ->
+  fst (sync_walk true xs fwd q) = fwd /\ forallb is_reply (snd (sync_walk true xs fwd q)) = forallb is_reply q.
+Proof.
+  induction xs as [|x xs IH]; intros fwd q H; cbn [sync_walk]; [split; reflexivity|].
+  cbn [forallb] in H. apply andb_prop in H. destruct H as [Hx Hxs].
+  destruct x as [| m | m | | k n]; try discriminate. destruct n as [|n0 n']; [discriminate|].
+  cbn [named_close] in Hx. rewrite Hx. cbn [andb negb].
+  destruct (IH fwd (q ++ [FxReply RQueued]) Hxs) as [I1 I2]. split; [exact I1|].
+  rewrite I2, forallb_app. cbn. rewrite andb_true_r. reflexivity.
+Qed.
+
+Lemma named_closes_local : forall xs, forallb named_close xs = true -> fst (sync_walk true xs false []) = false.
+Proof. intros xs H. exact (proj1 (sync_walk_named_closes xs false [] H)). Qed.
+
 Definition balanced (h0 : bool) (so : sout) : Prop :=
   match so with
   | SNeed => True
